@@ -14,10 +14,15 @@ model and its line theorems.  Helper lemmas: Lemmas/YannyHist.lean.
   content         an accepted append extends the document read by the line loop by exactly the
                   appended pairs and rows, in order (`parse_append`, `chunk_loop`, `append_content`);
                   over histories: `history_content_partial` (two named hypotheses, see there)
+  content, full   extension round: on C01's document domain the two named hypotheses are theorems
+                  (`front_stable` / `front_appended`, `render_loop`; helpers Lemmas/YannyHistDoc.lean,
+                  executable domain predicates Model/YannyHistDom.lean) and `history_content` holds
+                  for every history that stays in the domain (`histOK`), down to the record arrays
 -/
 import PydlVerif.Lemmas.YannyHist
+import PydlVerif.Lemmas.YannyHistDoc
 namespace PydlVerif.C03
-open PydlVerif.Yanny
+open PydlVerif.Yanny PydlVerif.YannyRT
 
 variable {F : Type}
 
@@ -410,6 +415,449 @@ theorem history_content_partial (io : FloatIO F) (h1 : H1 io) (h2 : H2 io) (ops 
     rw [c2] at this
     rw [expectAfter_cons]
     exact this
+
+
+/-! ## content over histories, on C01's document domain: the two named hypotheses discharged -/
+
+/-- **FrontStable discharged** (hypothesis 1 of `history_content_partial`): for a text that is a
+written in-domain document followed by whole lines of C01's line domain (`LineOK`: no `typedef`, no
+newline, no continuation mark - every line `append()` builds from in-domain cells is one,
+`chunk_domain`), appending further such lines leaves continuation joining and typedef extraction
+alone: `front (text ++ chunk)` is `front text` with the chunk's lines appended to the rest -/
+theorem front_stable (io : FloatIO F) (h2 : H2 io) (d : Doc F) (hd : docOK io d = true)
+    (ls cl : List Str) (hls : ∀ l ∈ ls, LineOK l) (hcl : ∀ l ∈ cl, LineOK l) :
+    frontStable (C01.textOf io d ++ linesText ls) (linesText cl) = true :=
+  Yanny.front_stable io h2 d hd ls cl hls hcl
+
+/-- the same as an equation for `front` -/
+theorem front_appended (io : FloatIO F) (h2 : H2 io) (d : Doc F) (hd : docOK io d = true)
+    (ls : List Str) (hls : ∀ l ∈ ls, LineOK l) :
+    front (C01.textOf io d ++ linesText ls) =
+      ⟨tdefsOf "struct".toList (structBlocks d), tdefsOf "enum".toList (enumBlocks d),
+       d.tables.map (fun t => (upper t.name, t.cols.map (·.name))), C01.restOf io d ++ linesText ls⟩ :=
+  Yanny.front_appended io h2 d hd ls hls
+
+/-- **RenderLoop discharged** (hypothesis 2 of `history_content_partial`): the text `write()` renders
+for an object whose view is the view of an in-domain document `D` is C01's `textOf` of `writeDoc D`
+(`renderView_doc`), and - when that document is in the domain - reads back (C01 `front_render`,
+`typing_render`, `loop_render`) as exactly the document `D` read as -/
+theorem render_loop (io : FloatIO F) (h1 : H1 io) (h2 : H2 io) (raw : Bool) (D : Doc F) (block : Str)
+    (hD' : docOK io (writeDoc D block) = true) (hr : rawOK raw D = true) :
+    renderView io (viewOfDoc raw D) block = C01.textOf io (writeDoc D block) ∧
+    loopOf io raw (renderView io (viewOfDoc raw D) block) = .ok (docLoop D) := by
+  have hv : viewOfDoc raw D = viewRT raw D :=
+    viewOfDoc_eq raw D (C01.docOK_props io (writeDoc D block) hD').2.1
+      (C01.docOK_supported io (writeDoc D block) hD')
+  rw [hv]
+  refine ⟨renderView_doc io raw D block, ?_⟩
+  rw [renderView_doc, loop_of_doc io h1 h2 _ hD' raw (by rw [rawOK_shape raw D _ (shape_writeDoc D block)]; exact hr),
+    docLoop_writeDoc]
+
+/-- what the induction over a history carries: the state is coherent and bound; the object's text is
+the text of an in-domain document `d` followed by whole appended lines; its line loop reads the
+in-domain document `D` (same declarations, tables and columns as `d`) -/
+structure Track (io : FloatIO F) (s : State F) (d D : Doc F) (ls : List Str) : Prop where
+  inv : Inv io s
+  bound : s.obj.filename ≠ []
+  base : docOK io d = true
+  cur : docOK io D = true
+  shape : shapeOf D = shapeOf d
+  raw : rawOK s.obj.raw d = true
+  text : s.obj.contents = C01.textOf io d ++ linesText ls
+  lines : ∀ l ∈ ls, LineOK l
+  loop : loopOf io s.obj.raw s.obj.contents = .ok (docLoop D)
+
+/-- the object's view under `Track`: `_symbols`, pairs and tables of `D` (record arrays with the
+canonical column types in normal mode, C01 `finish_render`; lists in raw mode) -/
+theorem Track.view {io : FloatIO F} {s : State F} {d D : Doc F} {ls : List Str} (h2 : H2 io)
+    (t : Track io s d D ls) : s.obj.view = .ok (viewOfDoc s.obj.raw D) := by
+  rw [t.inv.1, t.text, viewOfDoc_docOK io _ D t.cur]
+  exact view_of_loop io h2 d D t.base t.cur t.shape _ ls t.lines (by rw [← t.text]; exact t.loop)
+
+theorem Track.specs {io : FloatIO F} {s : State F} {d D : Doc F} {ls : List Str} (h2 : H2 io)
+    (t : Track io s d D ls) : specsOf (front s.obj.contents) s.obj.raw = C01.docSpecs D := by
+  rw [t.text, Yanny.front_appended io h2 d t.base ls t.lines, specs_doc io d t.base _ t.raw]
+  exact (shape_facts d D t.shape).2.2.2.2.1.symm
+
+theorem Track.file {io : FloatIO F} {s : State F} {d D : Doc F} {ls : List Str}
+    (t : Track io s d D ls) : s.fs s.obj.filename = some s.obj.contents := t.inv.2 t.bound
+
+/-- a bound coherent object whose text is the text of an in-domain document -/
+theorem track_init (io : FloatIO F) (h1 : H1 io) (h2 : H2 io) (s : State F) (d : Doc F)
+    (hd : docOK io d = true) (hraw : rawOK s.obj.raw d = true) (hinv : Inv io s)
+    (hb : s.obj.filename ≠ []) (hc : s.obj.contents = C01.textOf io d) : Track io s d d [] :=
+  ⟨hinv, hb, hd, hd, rfl, hraw, (by rw [hc]; simp [linesText]), (by intro l hl; cases hl),
+    (by rw [hc]; exact loop_of_doc io h1 h2 d hd _ hraw)⟩
+
+/-- `StepOK` of an append under `Track`: FrontStable, RestNl and the line domains hold for whatever
+is accepted, provided it is `appendOK` -/
+theorem stepOK_append (io : FloatIO F) (h2 : H2 io) (s : State F) (d D : Doc F) (ls : List Str)
+    (t : Track io s d D ls) (data : List (Str × AVal F)) (stamp : Str)
+    (hok : ∀ ps gs, acceptedAppend io s data = some (ps, gs) → appendOK io D stamp ps gs = true) :
+    StepOK io s (.append data stamp) ∧
+    ∀ ps gs, acceptedAppend io s data = some (ps, gs) → ∀ l ∈ chunkLines io stamp ps gs, LineOK l := by
+  have key : ∀ ps gs, acceptedAppend io s data = some (ps, gs) →
+      AppendOK io s stamp ps gs ∧ ∀ l ∈ chunkLines io stamp ps gs, LineOK l := by
+    intro ps gs hacc
+    rcases stepAppend_accepted io s data stamp with ⟨hn, _⟩ | ⟨v, ps', gs', old, ha, _, hv, _, hg, _, _⟩
+    · rw [hn] at hacc; cases hacc
+    · rw [ha] at hacc
+      cases hacc
+      have hv' := t.view h2
+      rw [hv] at hv'
+      cases hv'
+      rw [viewOfDoc_docOK io _ D t.cur] at hg
+      obtain ⟨c1, c2, c3, c4⟩ := chunk_domain io h2 s.obj.raw D data stamp ps gs t.cur hg (hok ps gs ha)
+      refine ⟨⟨?_, ?_, c1, ?_, ?_⟩, c4⟩
+      · rw [chunk_eq_lines, t.text]
+        exact Yanny.front_stable io h2 d t.base ls _ t.lines c4
+      · rw [t.text]
+        exact restNl_appended io h2 d t.base ls t.lines
+      · rw [t.specs h2]; exact c2
+      · rw [t.specs h2]; exact c3
+  exact ⟨fun ps gs h => (key ps gs h).1, fun ps gs h => (key ps gs h).2⟩
+
+/-- `StepOK` of a write under `Track`: RenderLoop holds when the document written is in the domain -/
+theorem stepOK_write (io : FloatIO F) (h1 : H1 io) (h2 : H2 io) (s : State F) (d D : Doc F) (ls : List Str)
+    (t : Track io s d D ls) (nf : Option Str) (cm : Comments)
+    (hok : ∀ p, writeTarget s nf = some p → s.fs p = none → p ≠ [] →
+      docOK io (writeDoc D (commentBlock p cm)) = true) :
+    StepOK io s (.write nf cm) := by
+  intro p v k1 k2 k3 k4
+  have hv := t.view h2
+  rw [k4] at hv
+  cases hv
+  have hr : rawOK s.obj.raw D = true := by rw [rawOK_shape _ d D t.shape]; exact t.raw
+  rw [(render_loop io h1 h2 s.obj.raw D _ (hok p k1 k2 k3) hr).2, t.loop]
+
+theorem writeTarget_bound (s : State F) (nf : Option Str) (hb : s.obj.filename ≠ []) :
+    writeTarget s nf = some (nf.getD s.obj.filename) := by
+  cases nf with
+  | some p => rfl
+  | none => simp [writeTarget, isEmpty_false_of_ne _ hb]
+
+/-- the induction behind `history_content`: along a history inside the domain (`histDoc … = some`)
+every step meets the hypotheses of `history_content_partial` (`Admissible`), and at the end the
+object's text is again "in-domain document + appended lines" reading as the expected document -/
+theorem track_run (io : FloatIO F) (h1 : H1 io) (h2 : H2 io) (ops : List (Op F)) :
+    ∀ (s : State F) (d D : Doc F) (ls : List Str) (ex : Str → Bool) (Dfin : Doc F),
+      Track io s d D ls → (∀ q, ex q = (s.fs q).isSome) →
+      histDoc io s.obj.raw ex s.obj.filename D ops = some Dfin →
+      Admissible io s ops ∧ (run io s ops).obj.raw = s.obj.raw ∧ shapeOf Dfin = shapeOf D ∧
+      ∃ d' ls', Track io (run io s ops) d' Dfin ls' := by
+  induction ops with
+  | nil =>
+    intro s d D ls ex Dfin t _ h
+    simp only [histDoc, Option.some.injEq] at h
+    subst h
+    exact ⟨trivial, rfl, rfl, d, ls, t⟩
+  | cons op ops ih =>
+    intro s d D ls ex Dfin t hex h
+    cases op with
+    | append data stamp =>
+      have hacc := acceptedAppend_of_view io s data _ t.bound (t.view h2) (by rw [t.file]; rfl)
+      simp only [histDoc] at h
+      cases ha : acceptedOf io (viewOfDoc s.obj.raw D) data with
+      | none =>
+        rw [ha] at h hacc
+        simp only at h
+        have hs : (step io s (.append data stamp)).1 = s := by
+          rcases stepAppend_accepted io s data stamp with ⟨_, hs⟩ | ⟨v, ps', gs', old, ha', _⟩
+          · exact hs
+          · rw [hacc] at ha'; cases ha'
+        have hstep : StepOK io s (.append data stamp) := by
+          intro ps gs hpg; rw [hacc] at hpg; cases hpg
+        obtain ⟨r1, r2, r3, r4⟩ := ih s d D ls ex Dfin t hex h
+        refine ⟨⟨hstep, by rw [hs]; exact r1⟩, ?_, r3, ?_⟩
+        · simp only [run]; rw [hs]; exact r2
+        · simp only [run]; rw [hs]; exact r4
+      | some pg =>
+        obtain ⟨ps, gs⟩ := pg
+        rw [ha] at h hacc
+        simp only at h
+        have hok : appendOK io D stamp ps gs = true := by
+          cases hq : appendOK io D stamp ps gs with
+          | true => rfl
+          | false => rw [hq] at h; simp at h
+        simp only [hok, if_true] at h
+        obtain ⟨hstep, hlines⟩ := stepOK_append io h2 s d D ls t data stamp (by
+          intro ps' gs' hpg; rw [hacc] at hpg; cases hpg; exact hok)
+        have hl := hlines ps gs hacc
+        obtain ⟨_, _, _, _, _, q4, q5, q6⟩ :=
+          append_content io h1 h2 s data stamp ps gs (docLoop D) hacc (hstep ps gs hacc) t.loop
+        rcases stepAppend_accepted io s data stamp with ⟨hn, _⟩ | ⟨v, ps', gs', old, ha', _, _, _, _, hold, he⟩
+        · rw [hacc] at hn; cases hn
+        · rw [hacc] at ha'
+          cases ha'
+          have hold' : old = s.obj.contents := by
+            have := t.file; rw [hold] at this; exact Option.some.inj this
+          have hcont : (step io s (.append data stamp)).1.obj.contents =
+              C01.textOf io d ++ linesText (ls ++ chunkLines io stamp ps gs) := by
+            simp only [step, he, appendTo]
+            rw [chunk_eq_lines, t.text, linesText_append, List.append_assoc]
+            rfl
+          have hOK' : docOK io (appendDoc D ps gs) = true := by
+            simp only [appendOK, Bool.and_eq_true] at hok
+            exact hok.2
+          have t' : Track io (step io s (.append data stamp)).1 d (appendDoc D ps gs) (ls ++ chunkLines io stamp ps gs) := by
+            refine ⟨inv_step io s _ rfl t.inv, (by rw [q4]; exact t.bound), t.base, hOK', ?_,
+              (by rw [q5]; exact t.raw), hcont, ?_, ?_⟩
+            · rw [shape_appendDoc]; exact t.shape
+            · intro l hm
+              rcases List.mem_append.mp hm with h' | h'
+              · exact t.lines l h'
+              · exact hl l h'
+            · rw [q5, docLoop_appendDoc]; exact q6
+          have hex' : ∀ q, ex q = ((step io s (.append data stamp)).1.fs q).isSome := by
+            intro q
+            simp only [step, he, appendTo, update]
+            by_cases hq : q = s.obj.filename
+            · subst hq
+              simp [hex, hold]
+            · simp [hq, hex]
+          have h' : histDoc io (step io s (.append data stamp)).1.obj.raw ex
+              (step io s (.append data stamp)).1.obj.filename (appendDoc D ps gs) ops = some Dfin := by
+            rw [q4, q5]; exact h
+          obtain ⟨r1, r2, r3, r4⟩ := ih _ d (appendDoc D ps gs) _ ex Dfin t' hex' h'
+          refine ⟨⟨hstep, r1⟩, ?_, ?_, r4⟩
+          · simp only [run]; rw [r2, q5]
+          · rw [r3, shape_appendDoc]
+    | write nf cm =>
+      have hwt := writeTarget_bound s nf t.bound
+      simp only [histDoc] at h
+      by_cases hcond : (ex (nf.getD s.obj.filename) || (nf.getD s.obj.filename).isEmpty) = true
+      · simp only [hcond, if_true] at h
+        have hs : (step io s (.write nf cm)).1 = s := by
+          rcases stepWrite_cases io s nf cm with ⟨e, he⟩ | ⟨p, v, k1, k2, k3, _, _⟩
+          · simp [step, he]
+          · rw [hwt] at k1
+            cases k1
+            simp only [Bool.or_eq_true] at hcond
+            rcases hcond with hc | hc
+            · rw [hex, k2] at hc; cases hc
+            · exact absurd (List.isEmpty_iff.mp hc) k3
+        have hstep : StepOK io s (.write nf cm) := by
+          apply stepOK_write io h1 h2 s d D ls t
+          intro p k1 k2 k3
+          rw [hwt] at k1
+          cases k1
+          simp only [Bool.or_eq_true] at hcond
+          rcases hcond with hc | hc
+          · rw [hex, k2] at hc; cases hc
+          · exact absurd (List.isEmpty_iff.mp hc) k3
+        obtain ⟨r1, r2, r3, r4⟩ := ih s d D ls ex Dfin t hex h
+        refine ⟨⟨hstep, by rw [hs]; exact r1⟩, ?_, r3, ?_⟩
+        · simp only [run]; rw [hs]; exact r2
+        · simp only [run]; rw [hs]; exact r4
+      · simp only [hcond, Bool.false_eq_true, if_false] at h
+        have hD' : docOK io (writeDoc D (commentBlock (nf.getD s.obj.filename) cm)) = true := by
+          cases hq : docOK io (writeDoc D (commentBlock (nf.getD s.obj.filename) cm)) with
+          | true => rfl
+          | false => rw [hq] at h; simp at h
+        simp only [hD', if_true] at h
+        simp only [Bool.or_eq_true, not_or, Bool.not_eq_true] at hcond
+        obtain ⟨hc1, hc2⟩ := hcond
+        have hfs : s.fs (nf.getD s.obj.filename) = none := by
+          rw [hex] at hc1
+          cases hf : s.fs (nf.getD s.obj.filename) with
+          | none => rfl
+          | some x => rw [hf] at hc1; cases hc1
+        have hpne : nf.getD s.obj.filename ≠ [] := ne_of_isEmpty_false _ hc2
+        have hstep : StepOK io s (.write nf cm) := by
+          apply stepOK_write io h1 h2 s d D ls t
+          intro p k1 _ _
+          rw [hwt] at k1
+          cases k1
+          exact hD'
+        have hr : rawOK s.obj.raw D = true := by rw [rawOK_shape _ d D t.shape]; exact t.raw
+        have he : step io s (.write nf cm) =
+            writeTo io s (nf.getD s.obj.filename) (viewOfDoc s.obj.raw D) cm := by
+          simp [step, stepWrite, hwt, hfs, hpne, t.view h2]
+        obtain ⟨e1, e2⟩ := render_loop io h1 h2 s.obj.raw D (commentBlock (nf.getD s.obj.filename) cm) hD' hr
+        have t' : Track io (step io s (.write nf cm)).1 (writeDoc D (commentBlock (nf.getD s.obj.filename) cm))
+            (writeDoc D (commentBlock (nf.getD s.obj.filename) cm)) [] := by
+          refine ⟨inv_step io s _ rfl t.inv, ?_, hD', hD', rfl, ?_, ?_, (by intro l hl; cases hl), ?_⟩
+          · simp only [he, writeTo]; exact hpne
+          · simp only [he, writeTo]
+            rw [rawOK_shape _ D _ (shape_writeDoc D _)]; exact hr
+          · simp only [he, writeTo]
+            rw [e1]; simp [linesText]
+          · simp only [he, writeTo]
+            rw [e2, docLoop_writeDoc]
+        have hex' : ∀ q, (q == nf.getD s.obj.filename || ex q) = ((step io s (.write nf cm)).1.fs q).isSome := by
+          intro q
+          simp only [he, writeTo, update]
+          by_cases hq : q = nf.getD s.obj.filename
+          · simp [hq]
+          · simp [hq, hex]
+        have h' : histDoc io (step io s (.write nf cm)).1.obj.raw (fun q => q == nf.getD s.obj.filename || ex q)
+            (step io s (.write nf cm)).1.obj.filename (writeDoc D (commentBlock (nf.getD s.obj.filename) cm)) ops =
+            some Dfin := by
+          simp only [he, writeTo]; exact h
+        obtain ⟨r1, r2, r3, r4⟩ := ih _ _ _ _ _ Dfin t' hex' h'
+        refine ⟨⟨hstep, r1⟩, ?_, ?_, r4⟩
+        · simp only [run]; rw [r2]; simp only [he, writeTo]
+        · rw [r3]; rfl
+    | appendNonDict =>
+      simp only [histDoc] at h
+      obtain ⟨r1, r2, r3, r4⟩ := ih s d D ls ex Dfin t hex h
+      exact ⟨⟨trivial, r1⟩, r2, r3, r4⟩
+    | reread =>
+      simp only [histDoc] at h
+      have hs : (step io s .reread).1 = s := by
+        have hf := t.file
+        have hv := t.inv.1
+        obtain ⟨fs, ⟨fn, ct, rw', vw⟩⟩ := s
+        simp only [ViewOK] at hv
+        simp only at hf
+        simp only [step, load, isEmpty_false_of_ne _ t.bound, Bool.false_eq_true, if_false, hf, hv]
+      obtain ⟨r1, r2, r3, r4⟩ := ih s d D ls ex Dfin t hex h
+      refine ⟨⟨trivial, by rw [hs]; exact r1⟩, ?_, r3, ?_⟩
+      · simp only [run]; rw [hs]; exact r2
+      · simp only [run]; rw [hs]; exact r4
+    | unlink => simp [histDoc] at h
+    | rebind p => simp [histDoc] at h
+
+/-- **`history_content`** (the statement of C03 on C01's document domain, NO named hypothesis left):
+let the object be coherent, bound to a file, and hold the text `renderFile` writes for an in-domain
+document `d` (`docOK`; in raw mode without float32 column, `rawOK`).  For EVERY history of the
+object's operations - write-new / write-copy / write-over, appends of rows and pairs, empty
+appends, appends refused, non-dictionary appends, re-reads - that stays inside C01's domain
+(`histOK`, a decidable predicate on the initial document and the operations: every accepted append
+is `appendOK`, every accepted write renders a `docOK` document),
+
+* the document read from the object's text by the line loop is the initial document followed by
+  every accepted appended pair and row, in order (`expectAfter`);
+* object and file agree at the end (`Inv`: the view is `_parse` of `_contents`, the file holds
+  `_contents`; so a fresh `yanny(filename)` returns the same view, `reread_same`);
+* record-array level: the object's view is `viewOfDoc` of a document `Dfin` with the declarations,
+  tables and columns of `d` whose pairs and rows are exactly those expected - in normal mode its
+  tables are the record arrays with the canonical column types and every cell unchanged (C01
+  `finish_render`), in raw mode the bare lists.
+
+FrontStable and RenderLoop are no longer assumed: `front_stable` / `front_appended` and
+`render_loop` prove them at every step (`track_run` shows `Admissible`).  Outside: raw mode with a
+float32 column (`rawOK`), and the per-line D4 exclusions that `docOK` carries. -/
+theorem history_content (io : FloatIO F) (h1 : H1 io) (h2 : H2 io) (d : Doc F) (s : State F)
+    (ops : List (Op F)) (hd : docOK io d = true) (hraw : rawOK s.obj.raw d = true) (hinv : Inv io s)
+    (hb : s.obj.filename ≠ []) (hc : s.obj.contents = C01.textOf io d)
+    (hops : histOK io s.obj.raw (fun q => (s.fs q).isSome) s.obj.filename d ops = true) :
+    loopOf io s.obj.raw (run io s ops).obj.contents = .ok (expectAfter io s (docLoop d) ops) ∧
+    Inv io (run io s ops) ∧
+    ∃ Dfin, histDoc io s.obj.raw (fun q => (s.fs q).isSome) s.obj.filename d ops = some Dfin ∧
+      (run io s ops).obj.view = .ok (viewOfDoc s.obj.raw Dfin) ∧
+      docLoop Dfin = expectAfter io s (docLoop d) ops ∧ shapeOf Dfin = shapeOf d := by
+  obtain ⟨Dfin, hD⟩ := Option.isSome_iff_exists.mp hops
+  have t0 := track_init io h1 h2 s d hd hraw hinv hb hc
+  obtain ⟨hadm, hr, hsh, d', ls', t'⟩ := track_run io h1 h2 ops s d d [] _ Dfin t0 (fun _ => rfl) hD
+  obtain ⟨p1, p2⟩ := history_content_partial io h1 h2 ops s (docLoop d) hinv hb hadm t0.loop
+  refine ⟨p1, p2, Dfin, hD, ?_, ?_, hsh⟩
+  · have := t'.view h2
+    rw [hr] at this
+    exact this
+  · have := t'.loop
+    rw [hr, p1] at this
+    exact (Except.ok.inj this).symm
+
+/-- the same from the file: a fresh `yanny(p, raw)` of a file holding what `write_ndarray_to_yanny`
+(`renderFile`) wrote for an in-domain document -/
+theorem history_content_file (io : FloatIO F) (h1 : H1 io) (h2 : H2 io) (d : Doc F)
+    (fs : Str → Option Str) (p text : Str) (raw : Bool) (ops : List (Op F))
+    (hd : docOK io d = true) (hraw : rawOK raw d = true) (hp : p ≠ [])
+    (hr : renderFile io d = .ok text) (hf : fs p = some text)
+    (hops : histOK io raw (fun q => (fs q).isSome) p d ops = true) :
+    let s : State F := ⟨fs, load io fs p raw⟩
+    loopOf io raw (run io s ops).obj.contents = .ok (expectAfter io s (docLoop d) ops) ∧
+    Inv io (run io s ops) ∧
+    ∃ Dfin, (run io s ops).obj.view = .ok (viewOfDoc raw Dfin) ∧
+      docLoop Dfin = expectAfter io s (docLoop d) ops ∧ shapeOf Dfin = shapeOf d := by
+  intro s
+  have htext : text = C01.textOf io d := by
+    have := C01.render_text io d hd
+    rw [hr] at this
+    exact Except.ok.inj this
+  have hobj : s.obj = ⟨p, text, raw, parseView io raw text⟩ := by
+    simp [s, load, isEmpty_false_of_ne _ hp, hf]
+  have hinv : Inv io s := inv_load io fs p raw
+  have e1 : s.obj.raw = raw := by rw [hobj]
+  have e2 : s.obj.filename = p := by rw [hobj]
+  have e3 : s.obj.contents = C01.textOf io d := by rw [hobj]; exact htext
+  obtain ⟨q1, q2, Dfin, _, q4, q5, q6⟩ := history_content io h1 h2 d s ops hd (by rw [e1]; exact hraw) hinv
+    (by rw [e2]; exact hp) e3 (by rw [e1, e2]; exact hops)
+  rw [e1] at q1 q4
+  exact ⟨q1, q2, Dfin, q4, q5, q6⟩
+
+
+/-! ### `history_content` is not vacuous -/
+
+/-- a small in-domain document: one table with an integer, a string and a float-array column, one
+row, a header pair, a comment block -/
+def histSampleDoc : Doc Int :=
+  { comments := "# made by hand\n".toList
+    hdr := [("mjd".toList, " 54579 ".toList)]
+    enums := []
+    tables := [
+      { name := "obs".toList
+        cols := [⟨"n".toList, .i4, 0⟩, ⟨"s".toList, .S 8, 0⟩, ⟨"g".toList, .f8, 2⟩]
+        rows := [[.one (.int (-5)), .one (.str "a #b".toList), .many [.flt .f8 1, .flt .f8 (-2)]]] }] }
+
+/-- a history with every kind of operation of the object: rows (under the lower-case table name) and
+a pair appended, write-copy with the default comment block, a pair appended that replaces an
+existing key, write-over (refused), re-read, an empty append, a non-dictionary append, a second
+append of rows under the upper-case name -/
+def histSampleOps : List (Op Int) :=
+  [ .append [("obs".toList, .table [("n".toList, [.one (.int 7), .one (.int 8)]),
+                                     ("s".toList, [.one (.str "x y".toList), .one (.str "".toList)]),
+                                     ("g".toList, [.many [.flt .f8 3, .flt .f8 4], .many [.flt .f8 0, .flt .f8 0]])]),
+             ("note".toList, .text "  two words ".toList)] "2026-09-29 12:00:00".toList,
+    .write (some "dir/b.par".toList) (.default "2026-09-29 12:00:01".toList),
+    .append [("mjd".toList, .text "54580".toList)] "later".toList,
+    .write none (.text "again".toList),
+    .reread,
+    .append [] "never".toList,
+    .appendNonDict,
+    .append [("OBS".toList, .table [("n".toList, [.one (.int 9)]), ("s".toList, [.one (.str "z{".toList)]),
+                                     ("g".toList, [.many [.flt .f8 5, .flt .f8 6]])])] "last".toList ]
+
+set_option maxRecDepth 1000000 in
+example : docOK C01.intIO histSampleDoc = true := by decide
+
+set_option maxRecDepth 1000000 in
+/-- the sample history stays inside the domain, in both modes (the document has no float32 column) -/
+example : histOK C01.intIO false (fun q => q == "a.par".toList) "a.par".toList histSampleDoc histSampleOps = true ∧
+    histOK C01.intIO true (fun q => q == "a.par".toList) "a.par".toList histSampleDoc histSampleOps = true ∧
+    rawOK true histSampleDoc = true := by decide
+
+set_option maxRecDepth 1000000 in
+/-- the document the history ends with: four rows in file order, the replaced and the new pair -/
+example : (histDoc C01.intIO false (fun q => q == "a.par".toList) "a.par".toList histSampleDoc histSampleOps).map
+      (fun D => (docLoop D).pairs) =
+    some [("mjd".toList, "54580".toList), ("note".toList, "two words".toList)] := by decide
+
+/-- `history_content_file` applies to the sample: the file `a.par` holds what `renderFile` writes for
+the sample document, the object is read from it, and the eight operations are run -/
+example (text : Str) (hr : renderFile C01.intIO histSampleDoc = .ok text) :
+    let fs : Str → Option Str := fun q => if q = "a.par".toList then some text else none
+    let s : State Int := ⟨fs, load C01.intIO fs "a.par".toList false⟩
+    loopOf C01.intIO false (run C01.intIO s histSampleOps).obj.contents =
+      .ok (expectAfter C01.intIO s (docLoop histSampleDoc) histSampleOps) ∧
+    Inv C01.intIO (run C01.intIO s histSampleOps) := by
+  intro fs s
+  have hfs : (fun q => (fs q).isSome) = fun q => q == "a.par".toList := by
+    funext q
+    show (if q = "a.par".toList then some text else none).isSome = (q == "a.par".toList)
+    by_cases hq : q = "a.par".toList
+    · rw [if_pos hq, beq_iff_eq.mpr hq]; rfl
+    · rw [if_neg hq, beq_eq_false_iff_ne.mpr hq]; rfl
+  have := history_content_file C01.intIO (fun _ x => parseInt_fmtInt x)
+    (by
+      intro w x c hc
+      have := intChar_ne c (fmtInt_chars x c hc)
+      exact ⟨this.1, this.2.1, this.2.2.1, this.2.2.2⟩)
+    histSampleDoc fs "a.par".toList text false histSampleOps
+    (by set_option maxRecDepth 1000000 in decide) rfl (by decide) hr (by simp [fs])
+    (by rw [hfs]; set_option maxRecDepth 1000000 in decide)
+  exact ⟨this.1, this.2.1⟩
 
 /-! ## the hypotheses are satisfiable -/
 
